@@ -53,6 +53,22 @@ inline ToAscii to_ascii(const Bytes &u) {
     return r;
 }
 
+// Inputs longer than 2^31 octets (thorough tiers only): expected verdicts are known by construction, no reference
+// recogniser is run over them.  shape 0: run of 'a'; 1: run + "."; 2: quoted run; 3: run with one 0xFF in the middle;
+// 4: labels of 63 + ".com" (a host name far beyond 253 octets); 5: run of U+0416.
+inline char *huge_input(int shape, size_t *len) {
+    size_t n = ((size_t) 1 << 31) + 200; char *s = (char *) malloc(n + 8); if (!s) return nullptr;
+    memset(s, 'a', n);
+    switch (shape) {
+    case 1: s[n - 1] = '.'; break;
+    case 2: s[0] = '"'; s[n - 1] = '"'; memset(s + 1, 'q', n - 2); break;
+    case 3: s[n / 2] = (char) 0xFF; break;
+    case 4: for (size_t i = 63; i < n; i += 64) s[i] = '.'; memcpy(s + n - 4, ".com", 4); s[n - 5] = 'a'; break;
+    case 5: for (size_t i = 0; i + 1 < n; i += 2) { s[i] = (char) 0xD0; s[i + 1] = (char) 0x96; } break;
+    }
+    s[n] = 0; *len = n; return s;
+}
+
 inline std::string outcome_str(const v_outcome &o) {
     char t[256];
     snprintf(t, sizeof t, "ret=%d errcode=%d rc=%d idn_rc=%d flags(v4,v6,dom)=%d%d%d errstr='%s'", o.ret, o.errcode, o.rc, o.idn_rc, o.is_ipv4, o.is_ipv6, o.is_domain,
